@@ -5,6 +5,7 @@ package c02
 import (
 	"bytes"
 	"fmt"
+	"os"
 	"strconv"
 	"strings"
 	"syscall"
@@ -252,6 +253,11 @@ func mutations(r *hx.Rng, s *c01.Spec, c0, ad0 []byte, exhaustive bool, k int) [
 			add("ad.flip", c0, flip(ad0, b))
 		}
 	}
+	// the whole AD moved into the ciphertext (behind the prefix), presented with an empty AD: the MAC
+	// input ad || payload would be the same string were it not for the AD length that is authenticated
+	if len(ad0) > 0 && len(c0) >= pl {
+		add("ad.shiftall", append(clone(c0[:pl]), append(clone(ad0), c0[pl:]...)...), nil)
+	}
 	// the whole tag must be compared: one flip in the last four bytes, one anywhere in the tag,
 	// one in the first byte after the prefix (the IV), for every base
 	if n := len(c0); n >= s.TagLen() && s.TagLen() >= 4 {
@@ -345,6 +351,15 @@ func mutations(r *hx.Rng, s *c01.Spec, c0, ad0 []byte, exhaustive bool, k int) [
 	return out
 }
 
+// BigADLogs: log2 of the AD sizes of the bigad cases.  2^29 bytes costs three HMAC-SHA-256 passes
+// over 512 MiB per route; set VERIF_C02_NO_BIGAD=1 to drop that size on a small machine.
+func BigADLogs(tier string) []int {
+	if os.Getenv("VERIF_C02_NO_BIGAD") != "" {
+		return []int{5, 13}
+	}
+	return []int{5, 13, 29}
+}
+
 func line(s *c01.Spec, kind string, c, ad, p0 []byte) string {
 	return fmt.Sprintf("C02|%s|%s|%s|%s|%s", s, kind, hx.H(c), hx.H(ad), hx.H(p0))
 }
@@ -361,6 +376,69 @@ func gen(r *hx.Rng, n int, tier string) []string {
 				s.Route = "S"
 			}
 			out = append(out, line(s, fmt.Sprintf("huge.%d", (1<<38)-48+s.IVLen()+len(s.Prefix())+1+r.Intn(1<<20)), nil, nil, nil))
+		}
+	}
+	// AES-CTR-HMAC with a huge associated data (direct cases, no model computation): the 64-bit
+	// bit-length field of the MAC input must not wrap or be narrower — AD of 2^5 / 2^13 / 2^29
+	// bytes (8-, 16-, 32-bit fields wrap there), key-based route and subtle.EncryptThenAuthenticate
+	for _, k := range BigADLogs(tier) {
+		for _, route := range []string{"K", "S", "H"} {
+			if k > 13 && (route == "H" || (route == "S" && tier == "quick")) {
+				// 2^29 bytes: key-based route in every tier (3 s, 0.5 GiB resident); the subtle route copies
+				// ad || payload before the MAC (8 s, 2 GiB resident) and runs in the thorough tier only —
+				// its length encoding is exercised at 2^5 and 2^13 bytes in the quick tier
+				continue
+			}
+			s := c01.RandSpec(r)
+			for s.Scheme != "etm" {
+				s = c01.RandSpec(r)
+			}
+			s.Route = route
+			if route == "S" {
+				s.Variant = "R"
+			} else if k > 13 {
+				s.Variant = "T"
+			}
+			if s.ID == 0 {
+				s.ID = 7
+			}
+			if k > 13 {
+				// the fastest hash the key type offers, so that the three 512 MiB MAC passes stay cheap
+				s.Hash, s.TagSize = "sha256", 16
+				s.Params = fmt.Sprintf("%d.%d.%s.%d", s.IVSize, s.TagSize, s.Hash, s.AESLen)
+			}
+			out = append(out, line(s, "bigad."+strconv.Itoa(k), r.Bytes(s.IVLen()), nil, r.Bytes(1+r.Intn(20))))
+		}
+	}
+	// KMS envelope with an encrypted DEK of a chosen size (key-encryption scheme "pad"): at the
+	// least size that fits and at 4095 / 4096 bytes the stdlib-framed envelope must decrypt (and its
+	// mutants, and the cuts right behind the encrypted DEK, must not); above the documented
+	// maximum (4097, 4100) Decrypt must reject it
+	for i, dek := range c01.DEKNames {
+		k := c01.RandSpec(r)
+		for k.Scheme == "env" || (k.Scheme == "etm" && i%2 == 1) {
+			k = c01.RandSpec(r)
+		}
+		m := c01.PadMin(k, dek)
+		for _, n := range []int{m, c01.MaxEncryptedDEK - 1, c01.MaxEncryptedDEK, c01.MaxEncryptedDEK + 1, c01.MaxEncryptedDEK + 4} {
+			s := c01.PadEnv(k, dek, n)
+			pt := r.Bytes(r.Intn(3) * r.Intn(20))
+			ad := r.Bytes(c01.PickLen(r, 20))
+			c0, ok := s.Independent(r.Bytes(s.IVLen()), pt, ad)
+			if !ok {
+				continue
+			}
+			if n > c01.MaxEncryptedDEK {
+				out = append(out, line(s, "dek.toolong", c0, ad, nil))
+				continue
+			}
+			out = append(out, line(s, "valid", c0, ad, pt))
+			for _, cut := range []int{4 + n - 1, 4 + n, 4 + n + 1} {
+				out = append(out, line(s, "cut."+strconv.Itoa(cut), clone(c0[:cut]), ad, nil))
+			}
+			for _, mu := range mutations(r, s, c0, ad, false, 3) {
+				out = append(out, line(s, mu.kind, mu.c, mu.ad, nil))
+			}
 		}
 	}
 	// keyset level (aead.New over several keys, prefix map + RAW fallback): ciphertexts of
@@ -451,6 +529,11 @@ func gen(r *hx.Rng, n int, tier string) []string {
 			if o.Scheme == "env" {
 				k := *s.KEK
 				k.Key = o.Key
+				if k.Scheme == "pad" {
+					in := *k.Inner
+					in.Key = o.Key
+					k.Inner = &in
+				}
 				o.KEK = &k
 			}
 			out = append(out, line(s, "otherkey", validCiphertext(&o, iv, pt, ad), ad, nil))
